@@ -1,4 +1,4 @@
-\* all strings of length <= MaxLen over the numeric alphabet
+\* all strings of length <= MaxLen over AlphabetNum
 CONSTANTS
     Alphabet <- AlphabetNum
     MaxLen = 4
